@@ -7,7 +7,7 @@ from vk import refmodel as rm, strategies as S, wave as W
 from vk.build import build
 
 ID = 'C03'
-RULE = ('Hypothesis-generated netlists (XOR-rich, all primitives, forks, state elements as pseudo inputs/outputs, open pins) x four independent '
+RULE = ('Part stress: one or two 4-input gates at capacity 4-12 with up to 3 close edges per input and very unequal pin delays. Part settle: Hypothesis-generated netlists (XOR-rich, all primitives, forks, state elements as pseudo inputs/outputs, open pins) x four independent '
         'non-negative delays per line on a 1/8 grid (float32 or float64 arrays) x capacities (uniform 4/8/16/64 or per-line multiples of 4, biased '
         'small so that overflow happens) x 1..6 lanes x input waveforms with 0..3 transitions (0/1 through s[0..2], more written into the input '
         'slots of c) x strip_forks x optionally an earlier, different assignment and propagation on the same simulator object. Oracle: own Boolean evaluator: on every line the waveform starts at f(initial values) and its entry parity '
@@ -114,4 +114,15 @@ def prop(case):
     return Obs(bool(n_ovl or n_busy), labels, checks=len(b.c.lines) * lanes)
 
 
-PARTS = [Part('settle', prop, strategy=cases, quick=(8, 400), thorough=(16, 10000))]
+@st.composite
+def stress_cases(draw, tier):
+    """the wide-gate stress netlists of C13 (minimum capacity, many close edges, very unequal pin delays): settled values must still be the function"""
+    from vk.props.c13 import stress_cases as base
+    c = draw(base(tier))
+    return dict(nl=c['nl'], lanes=c['lanes'], waves=c['waves'], pre=None, dpool=c['dpool'], caps=draw(st.sampled_from([4, 4, 8, [4, 8, 4, 12]])),
+                c_reuse=draw(st.booleans()), props=draw(st.integers(1, 2)), api=0, ctime=None, f64=False, strip_forks=c['strip_forks'],
+                cuda=draw(st.sampled_from([False, False, True])))
+
+
+PARTS = [Part('stress', prop, strategy=stress_cases, quick=(4, 500), thorough=(16, 20000)),
+         Part('settle', prop, strategy=cases, quick=(8, 400), thorough=(16, 10000))]
